@@ -64,7 +64,10 @@ pub(crate) fn sampled(rng: &mut Rng) -> Scenario {
     if rng.bool(0.4) {
         for _ in 0..rng.int(1, 4) {
             let k = rng.int(2, p.n_ode.max(2) as usize) as u64;
-            let mut f = make_fault(rng, Trigger::At(k), FaultKind::Glitch, n);
+            // (a finite glitch forces a rejection; a non-finite value takes the solvers' retry paths)
+            // (not for RK4: without error control a NaN is simply integrated into the state)
+            let kind = if m.error_controlled() && rng.bool(0.3) { *rng.pick(&[FaultKind::NanAll, FaultKind::NanOne, FaultKind::PosInf]) } else { FaultKind::Glitch };
+            let mut f = make_fault(rng, Trigger::At(k), kind, n);
             f.mag = rng.sign() * rng.logu(10.0, 1e5);
             sc.faults.push(f);
         }
